@@ -15,6 +15,7 @@ import (
 	"testing"
 	"testing/synctest"
 	"time"
+	"unicode/utf8"
 
 	"github.com/beevik/etree"
 	"github.com/crewjam/saml"
@@ -41,11 +42,17 @@ type rpOverlap struct {
 	Resp        int    `json:"resp"`                            // the response its artifact stands for (the same artifact when equal to the first delivery's)
 	Set         string `json:"outstanding"`                     // what the second caller declares outstanding
 	SecondFirst bool   `json:"second_answered_first,omitempty"` // the resolver answers the later resolution first
+	// how the resolver fills InResponseTo on the ArtifactResponse that answers the second delivery's resolution: "" = this | previous |
+	// other | empty | near | case | concurrent (the ID of the other resolution it holds at that moment, i.e. the first delivery's)
+	ArtIRT string `json:"artifact_irt,omitempty"`
 }
 
 type rpStep struct {
 	Kind string `json:"kind"` // start | answer | deliver | retire
 	Flow int    `json:"flow,omitempty"`
+	// start: "" = the request carries the ID the library generated; else the application issues the request under this ID of its own
+	// making (an xs:ID, i.e. any XML name without a colon: letters of any script, digits, '-', '.', '_', U+00B7, combining marks)
+	OwnID string `json:"request_id_of_the_applications_own_making,omitempty"`
 	// answer: how the IdP fills InResponseTo at the Response and at each confirmation
 	RespIRT  string   `json:"resp_irt,omitempty"` // match | other | empty | near | prev
 	ConfIRTs []string `json:"conf_irts,omitempty"`
@@ -70,7 +77,8 @@ type rpStep struct {
 	Resp  int    `json:"resp,omitempty"`
 	Entry string `json:"entry,omitempty"` // xml | post | artifact
 	Set   string `json:"outstanding,omitempty"`
-	// artifact correlation: this | previous | other | empty
+	// artifact correlation: this | previous | other | empty | near | case | concurrent (only with an overlapping delivery: the ID of the
+	// other resolution the resolver holds at that moment, i.e. the second delivery's)
 	ArtIRT string `json:"artifact_irt,omitempty"`
 	// deliver (xml | post): the serialiser on the way spells the first character of every InResponseTo value as a numeric character
 	// reference (&#105;d-... for id-...): the same attribute value, the same signed content
@@ -86,6 +94,38 @@ var rpSets = []string{"live", "live", "live", "empty", "only-this", "only-other"
 	// every outstanding ID listed twice, in two orders (an application that appends on every redirect and never de-duplicates)
 	"live-repeated", "live-repeated"}
 
+// What an XML name (without colon) may begin with, and what it may go on with: a sample of each class the XML recommendation lists.
+var c04NameStart = []string{"a", "k", "z", "A", "Q", "_", "\u00fc", "\u00e9", "\u03a9", "\u0436", "\u8bf7", "\u6c42", "\U00020000"}
+var c04NameMore = []string{"0", "7", "-", ".", "_", "\u00b7", "\u0301", "\u203f"}
+
+// c04OwnID draws a request ID of the application's own making for flow number n: an XML name without colon, ASCII-only or not, which
+// ends in the flow number (so no two flows share an ID, and no ID is another one cut short).
+func c04OwnID(g *Rng, n int) string {
+	start, more := c04NameStart, append(append([]string(nil), c04NameStart...), c04NameMore...)
+	if g.Bool(0.3) { // the ASCII part of the name alphabet only
+		start, more = c04NameStart[:6], append(append([]string(nil), c04NameStart[:6]...), c04NameMore[:5]...)
+	}
+	id := Pick(g, start...)
+	for i, l := 0, 2+g.Intn(8); i < l; i++ {
+		id += Pick(g, more...)
+	}
+	return fmt.Sprintf("%s-%02d", id, n)
+}
+
+// c04CaseVariant is id in another letter case (something else altogether when it has no cased letter).
+func c04CaseVariant(id string) string {
+	if up := strings.ToUpper(id); up != id {
+		return up
+	}
+	if strings.HasPrefix(id, "id") {
+		return "ID" + id[2:]
+	}
+	if lo := strings.ToLower(id); lo != id {
+		return lo
+	}
+	return "ID" + id
+}
+
 func genReplay(g *Rng, tier string) *Plan {
 	k := rpKnobs{AllowIDPInitiated: g.Bool(0.12), CustomValidator: g.Bool(0.1), CustomAudience: g.Bool(0.15)}
 	p := &Plan{Knobs: mustJSON(k)}
@@ -95,7 +135,11 @@ func genReplay(g *Rng, tier string) *Plan {
 	for i := 0; i < n; i++ {
 		switch c := g.PickW(4, 5, 8, 2); {
 		case c == 0 || nflows == 0:
-			steps = append(steps, rpStep{Kind: "start"})
+			st := rpStep{Kind: "start"}
+			if g.Bool(0.3) {
+				st.OwnID = c04OwnID(g, nflows)
+			}
+			steps = append(steps, st)
 			nflows++
 		case c == 1 || nresps == 0:
 			st := rpStep{Kind: "answer", Flow: g.Intn(nflows), RespIRT: "match", Layout: g.Intn(3), Encrypt: g.Bool(0.15)}
@@ -145,6 +189,18 @@ func genReplay(g *Rng, tier string) *Plan {
 				if g.Bool(0.3) {
 					o.Resp = g.Intn(nresps) // another artifact (or, by chance, the same)
 				}
+				// a resolver that holds two resolutions at once may answer either with the ID of the other one (or both, crossed); the
+				// second delivery's resolution may also be answered with any of the wrong IDs the first one's may
+				switch g.PickW(5, 2, 2, 2, 1) {
+				case 1:
+					st.ArtIRT = "concurrent"
+				case 2:
+					o.ArtIRT = "concurrent"
+				case 3:
+					st.ArtIRT, o.ArtIRT = "concurrent", "concurrent"
+				case 4:
+					o.ArtIRT = Pick(g, "previous", "other", "empty", "near", "case")
+				}
 				st.Overlap = o
 			}
 			steps = append(steps, st)
@@ -179,11 +235,12 @@ type rpTransport struct {
 type rpArrival struct {
 	id, artifact string
 	mode         string // how the resolver fills the ArtifactResponse's InResponseTo (set before release)
+	other        string // the ID of the other resolution held at the same time, if any (set before release)
 	release      chan struct{}
 }
 
 // irtFor is the InResponseTo the resolver writes on the ArtifactResponse answering the ArtifactResolve id.
-func (t *rpTransport) irtFor(mode, id string) string {
+func (t *rpTransport) irtFor(mode, id, concurrent string) string {
 	irt := id
 	switch mode {
 	case "previous":
@@ -193,6 +250,11 @@ func (t *rpTransport) irtFor(mode, id string) string {
 		}
 	case "other":
 		irt = "id-some-other-resolve"
+	case "concurrent":
+		irt = concurrent
+		if irt == "" {
+			irt = "id-no-other-resolve-in-flight"
+		}
 	case "empty":
 		irt = ""
 	case "near":
@@ -234,10 +296,10 @@ func (t *rpTransport) RoundTrip(r *http.Request) (*http.Response, error) {
 		case <-r.Context().Done():
 			return nil, r.Context().Err()
 		}
-		body := wrapArtifactResponse(t.resolve(arr.artifact, id), "id-art", t.irtFor(arr.mode, id), idpEntity, saml.StatusSuccess, time.Now(), nil)
+		body := wrapArtifactResponse(t.resolve(arr.artifact, id), "id-art", t.irtFor(arr.mode, id, arr.other), idpEntity, saml.StatusSuccess, time.Now(), nil)
 		return &http.Response{StatusCode: 200, Status: "200 OK", Body: io.NopCloser(bytes.NewReader(body)), Header: http.Header{}, Request: r}, nil
 	}
-	irt := t.irtFor(t.mode, id)
+	irt := t.irtFor(t.mode, id, "")
 	inner := t.respEl
 	if t.lazy != nil {
 		inner = t.lazy(id)
@@ -253,7 +315,7 @@ func c04Respell(b []byte) []byte {
 	n := 0
 	return c04IRTAttr.ReplaceAllFunc(b, func(m []byte) []byte {
 		n++
-		c := m[len(m)-1]
+		c, _ := utf8.DecodeLastRune(m)
 		if n%2 == 0 {
 			return []byte(fmt.Sprintf(`InResponseTo="&#x%X;`, c))
 		}
@@ -299,6 +361,8 @@ func execReplay(t *testing.T, p *Plan) *Result {
 	type flow struct {
 		id      string
 		retired bool
+		// the request ID is of the application's own making; it has characters outside ASCII
+		own, beyondASCII bool
 	}
 	type resp struct {
 		flow     int
@@ -327,9 +391,28 @@ func execReplay(t *testing.T, p *Plan) *Result {
 			if err != nil {
 				panic(err)
 			}
-			flows = append(flows, &flow{id: req.ID})
+			if st.OwnID != "" {
+				// the application issues the request under an ID of its own making (unless that ID is taken already: a plan cut down
+				// by the minimiser cannot make two flows share one)
+				taken := false
+				for _, fl := range flows {
+					taken = taken || fl.id == st.OwnID
+				}
+				if !taken {
+					req.ID = st.OwnID
+				}
+			}
+			flows = append(flows, &flow{id: req.ID, own: req.ID == st.OwnID, beyondASCII: req.ID == st.OwnID && !c04ASCII(req.ID)})
 			appLive = append(appLive, req.ID)
-			res.logf("step %d start -> flow %d", si, len(flows)-1)
+			if req.ID == st.OwnID {
+				res.probe("request-id-of-the-applications-own-making")
+				if !c04ASCII(req.ID) {
+					res.probe("request-id-of-the-applications-own-making:beyond-ascii")
+				}
+				res.logf("step %d start -> flow %d, under the application's own request ID %q", si, len(flows)-1, req.ID)
+			} else {
+				res.logf("step %d start -> flow %d", si, len(flows)-1)
+			}
 		case "retire":
 			if st.Flow < len(flows) {
 				flows[st.Flow].retired = true
@@ -361,10 +444,7 @@ func execReplay(t *testing.T, p *Plan) *Result {
 					return f.id[:len(f.id)-1]
 				case "case":
 					// the same characters in another letter case: request IDs are xs:ID values, compared exactly
-					if up := strings.ToUpper(f.id); up != f.id {
-						return up
-					}
-					return "ID" + f.id[2:]
+					return c04CaseVariant(f.id)
 				case "prev":
 					if st.Flow > 0 {
 						return flows[st.Flow-1].id
@@ -606,6 +686,15 @@ func execReplay(t *testing.T, p *Plan) *Result {
 			if r.noData {
 				res.probe("confirmation-without-data")
 			}
+			if f.own && v.expect == "ACCEPT" {
+				res.probe("answer-to-own-request-id-must-be-accepted")
+				if f.beyondASCII {
+					res.probe("answer-to-own-request-id-must-be-accepted:beyond-ascii")
+				}
+			}
+			if f.own && v.expect == "REJECT" {
+				res.probe("answer-to-own-request-id-must-be-rejected")
+			}
 			if k.CustomAudience {
 				res.probe("custom-audience-validator-installed")
 				if !k.CustomValidator && !k.AllowIDPInitiated && respOK && !confOK {
@@ -630,7 +719,11 @@ func execReplay(t *testing.T, p *Plan) *Result {
 				r2 := resps[overlap.Resp]
 				r2.n++
 				set2 := mkSet(overlap.Set, r2)
-				v2 := judge(r2, set2, true)
+				mode2 := overlap.ArtIRT
+				if mode2 == "" {
+					mode2 = "this"
+				}
+				v2 := judge(r2, set2, mode2 == "this")
 				tr.resolve = func(artifact, resolveID string) *etree.Element {
 					for i, rr := range resps {
 						if artifactOf(i) == artifact {
@@ -667,13 +760,28 @@ func execReplay(t *testing.T, p *Plan) *Result {
 				tr.mu.Unlock()
 				go run(c1)
 				synctest.Wait()
+				tr.mu.Lock()
+				n1 := len(tr.arrivals) // the resolutions the first delivery has sent (one)
+				tr.mu.Unlock()
 				go run(c2)
 				synctest.Wait()
 				tr.mu.Lock()
 				arrivals := append([]*rpArrival(nil), tr.arrivals...)
 				tr.mu.Unlock()
-				if len(arrivals) > 0 {
-					arrivals[0].mode = st.ArtIRT // the first resolution to arrive is the first delivery's
+				for i, a := range arrivals {
+					a.mode = mode2
+					if i < n1 {
+						a.mode = st.ArtIRT
+					}
+					if len(arrivals) == 2 {
+						a.other = arrivals[1-i].id
+					}
+				}
+				if len(arrivals) == 2 && n1 == 1 && (st.ArtIRT == "concurrent" || mode2 == "concurrent") {
+					res.fire("backchannel:answered-with-the-id-of-the-concurrent-resolve")
+					if st.ArtIRT == mode2 {
+						res.probe("two-concurrent-resolves-answered-crosswise")
+					}
 				}
 				order := arrivals
 				if overlap.SecondFirst && len(arrivals) == 2 {
@@ -711,16 +819,16 @@ func execReplay(t *testing.T, p *Plan) *Result {
 					}
 					return "REJECT"
 				}
-				res.logf("step %d deliver resp %d (flow %d retired=%v nth=%d) via artifact set=%s art=%s respOK=%v confOK=%v expect=%s observed=%s || overlapping: resp %d (flow %d) set=%s second-answered-first=%v respOK=%v confOK=%v expect=%s observed=%s",
-					si, st.Resp, r.flow, f.retired, r.n, st.Set, st.ArtIRT, respOK, confOK, expect, obs(c1), overlap.Resp, r2.flow, overlap.Set, overlap.SecondFirst, v2.respOK, v2.confOK, v2.expect, obs(c2))
-				if !v2.respOK || !v2.confOK {
+				res.logf("step %d deliver resp %d (flow %d retired=%v nth=%d) via artifact set=%s art=%s respOK=%v confOK=%v expect=%s observed=%s || overlapping: resp %d (flow %d) set=%s art=%s second-answered-first=%v respOK=%v confOK=%v expect=%s observed=%s",
+					si, st.Resp, r.flow, f.retired, r.n, st.Set, st.ArtIRT, respOK, confOK, expect, obs(c1), overlap.Resp, r2.flow, overlap.Set, mode2, overlap.SecondFirst, v2.respOK, v2.confOK, v2.expect, obs(c2))
+				if !v2.respOK || !v2.confOK || !v2.artOK {
 					res.Nontrivial = true
 				}
 				if stuck {
 					res.Excluded = "a delivery did not return (totality is C09's business)"
 					return res
 				}
-				if settle("overlapping", r2, overlap.Set, set2, "this", v2, c2.as, c2.err, c2.pan) {
+				if settle("overlapping", r2, overlap.Set, set2, mode2, v2, c2.as, c2.err, c2.pan) {
 					return res
 				}
 				as, err, pan = c1.as, c1.err, c1.pan
@@ -797,6 +905,16 @@ func execReplay(t *testing.T, p *Plan) *Result {
 	return res
 }
 
+// c04ASCII tells whether s has ASCII characters only.
+func c04ASCII(s string) bool {
+	for i := 0; i < len(s); i++ {
+		if s[i] >= 0x80 {
+			return false
+		}
+	}
+	return true
+}
+
 // c04WithResolveID replaces the resolve-ID placeholder in every InResponseTo of spec.
 func c04WithResolveID(spec RespSpec, id string) RespSpec {
 	out := spec
@@ -823,6 +941,16 @@ func simplifyReplay(p *Plan) []*Plan {
 			c := p.Clone()
 			s2 := st
 			s2.Overlap = nil
+			if s2.ArtIRT == "concurrent" {
+				s2.ArtIRT = "other" // no other resolution in flight any more
+			}
+			c.Steps[i] = mustJSON(s2)
+			out = append(out, c)
+		}
+		if st.Kind == "start" && st.OwnID != "" {
+			c := p.Clone()
+			s2 := st
+			s2.OwnID = ""
 			c.Steps[i] = mustJSON(s2)
 			out = append(out, c)
 		}
@@ -864,7 +992,7 @@ func simplifyReplay(p *Plan) []*Plan {
 func init() {
 	register(&Profile{
 		ID: "C04", Name: "replay", Level: "exploration",
-		Rule: "histories of 4-12 actions over {start flow (real SP request ID becomes outstanding), IdP answers flow k with InResponseTo at the Response and at each of 1-2 confirmations in {matching, another flow's, previous flow's, empty/absent, near-miss}, deliver response r (again) through xml/post/artifact with the caller's outstanding set in {live, empty, only this, only others, {\"\"}, {\"\"}+live, near-miss IDs, all ever issued}, retire flow k}; on the artifact path a simulated resolver sees the ArtifactResolve the SP sends and answers this / the previous / another / no / a near-miss request ID; AllowIDPInitiated and a custom request-ID validator are per-run knobs; non-trivial = some delivery must be refused; distinct = distinct abstract log; for the live set the library is handed the application's own long-lived slice (the oracle keeps its own copy of what was meant); the resolver may mint the inner response with the ArtifactResolve ID it has just seen; 0-2 confirmations; answers may be unsigned Responses without a Destination attribute and may carry holder-of-key / sender-vouches / unknown-method confirmations (each confirmation's InResponseTo counts whatever its method); a confirmation may be addressed to another endpoint of the deployment or have lapsed long ago (its InResponseTo counts all the same; acceptance of an assertion that carries such a confirmation is not demanded); the application may install its own audience validator answering to a second entity ID (knob), and the assertion may then name that one; a delivery through the artifact entry point may be overlapped by a second one (the same artifact or another, its own declared outstanding set) that starts while the first resolution is held at the resolver, the resolver answering in either order: each of the two is judged by the set its own caller declared",
+		Rule: "histories of 4-12 actions over {start flow (real SP request ID becomes outstanding), IdP answers flow k with InResponseTo at the Response and at each of 1-2 confirmations in {matching, another flow's, previous flow's, empty/absent, near-miss}, deliver response r (again) through xml/post/artifact with the caller's outstanding set in {live, empty, only this, only others, {\"\"}, {\"\"}+live, near-miss IDs, all ever issued}, retire flow k}; on the artifact path a simulated resolver sees the ArtifactResolve the SP sends and answers this / the previous / another / no / a near-miss request ID; AllowIDPInitiated and a custom request-ID validator are per-run knobs; non-trivial = some delivery must be refused; distinct = distinct abstract log; for the live set the library is handed the application's own long-lived slice (the oracle keeps its own copy of what was meant); the resolver may mint the inner response with the ArtifactResolve ID it has just seen; 0-2 confirmations; answers may be unsigned Responses without a Destination attribute and may carry holder-of-key / sender-vouches / unknown-method confirmations (each confirmation's InResponseTo counts whatever its method); a confirmation may be addressed to another endpoint of the deployment or have lapsed long ago (its InResponseTo counts all the same; acceptance of an assertion that carries such a confirmation is not demanded); the application may install its own audience validator answering to a second entity ID (knob), and the assertion may then name that one; a delivery through the artifact entry point may be overlapped by a second one (the same artifact or another, its own declared outstanding set) that starts while the first resolution is held at the resolver, the resolver answering in either order: each of the two is judged by the set its own caller declared, and the resolver may answer either resolution (or both, crosswise) with the ID of the other one it holds at that moment, or the second with any of the wrong IDs (each delivery must be answered with the ID of the ArtifactResolve it issued itself); a flow may be started under a request ID of the application's own making instead of the library's: an XML name without colon drawn from ASCII letters, digits, '-', '.', '_' and from letters of other scripts (Latin-1, Greek, Cyrillic, CJK, a supplementary-plane ideograph), U+00B7, a combining mark, U+203F - outstanding IDs are whatever the caller declares, compared exactly",
 		Gen:  genReplay, Exec: execReplay, Simplify: simplifyReplay,
 		RunsQuick: 6000, RunsThorough: 600000,
 		Assumptions: []string{"with AllowIDPInitiated or a custom validator the statement imposes nothing on InResponseTo; only acceptance of otherwise valid responses (and artifact correlation) is asserted there", "an absent InResponseTo attribute and an empty one are the same thing on the wire"},
